@@ -53,8 +53,13 @@ class DecoSys:
             return "other:" + type(exc).__name__
 
         if genbased:
+            async def reporter(*a):        # an argument of the manager that happens to be a coroutine function
+                return None
+
             @L.contextmanager
-            async def manager():
+            async def manager(report=None):
+                if report is not reporter:
+                    s.errors.append(("argument-of-the-manager-lost", 0, repr(report)))
                 s.ngen += 1
                 gid = s.ngen
                 c = s.current
@@ -82,7 +87,7 @@ class DecoSys:
                     finally:
                         s.ex[cc] += 1
 
-            deco = manager()
+            deco = manager(reporter)      # all parameters optional, one positional argument given
         else:
             class Manager(L.ContextDecorator):
                 async def __aenter__(self):
@@ -212,7 +217,11 @@ TIERS = {
 def replay_path(args):
     (ncall, genbased, suppress, _seq), path = args[0][:4], args[1]
     L = tm.load_lib()
-    s = DecoSys(L, ncall, genbased, suppress, predirect=len(args[0]) > 4 and args[0][4])
+    try:
+        s = DecoSys(L, ncall, genbased, suppress, predirect=len(args[0]) > 4 and args[0][4])
+    except Exception as ex:  # noqa: BLE001 - making the manager and decorating with it is part of what is observed
+        return [("C15/decorator/manager-cannot-be-made-or-used-as-decorator",
+                 {"engine": "decorator", "spec": "Decorator", "path": [x["a"] for x in path], "observed": repr(ex)})]
     for j, e in enumerate(path):
         a, c, arg = e["a"]
         if not s.can(a, c):
@@ -245,7 +254,7 @@ def replay_path(args):
             n += 1
     out = []
     if s.errors:
-        kind = s.errors[0][0] if s.errors[0][0] in ("function-called-outside-its-context", "keyword-arguments-lost") else "calls-interfere"
+        kind = s.errors[0][0] if s.errors[0][0] in ("function-called-outside-its-context", "keyword-arguments-lost", "argument-of-the-manager-lost") else "calls-interfere"
         out.append((f"C15/decorator/{kind}", {"engine": "decorator", "path": [x["a"] for x in path], "observed": s.errors}))
     if not s.acct.ok():
         out.append(("C15/decorator/foreign-suspension", {"engine": "decorator", "path": [x["a"] for x in path]}))
